@@ -292,6 +292,14 @@ func genC11Hub(t *rapid.T) Scenario {
 		sc.Ops = append(sc.Ops, HubOp{K: k, X: x, Y: y, WaitMs: rapid.SampledFrom([]int{0, 0, 30, 250, 700, 1500}).Draw(t, "wait"),
 			Conc: rapid.IntRange(0, 4).Draw(t, "conc") == 0})
 	}
+	if rapid.IntRange(0, 5).Draw(t, "deadLink") == 0 {
+		// the connection between two hubs has silently died (black hole), one of them is started again
+		// (same certificate) and dials: the stale connection has to make way for the new one
+		x := rapid.IntRange(0, 1).Draw(t, "dlx")
+		sc.Ops = append(sc.Ops, HubOp{K: "register", X: x, Y: x + 1}, HubOp{K: "register", X: x + 1, Y: x}, HubOp{K: "appear", X: x, Y: x + 1}, HubOp{K: "appear", X: x + 1, Y: x, WaitMs: 1500},
+			HubOp{K: "freezeOld", X: x, Y: x + 1, WaitMs: rapid.SampledFrom([]int{0, 200}).Draw(t, "dlw")},
+			HubOp{K: "restart", X: rapid.SampledFrom([]int{x, x + 1}).Draw(t, "dlr"), WaitMs: 0}, HubOp{K: "wait", WaitMs: 2500})
+	}
 	sc.Ops = append(sc.Ops, HubOp{K: "wait", WaitMs: 1000})
 	sc.SlowLog = genSlowLog(t, sc.N)
 	return sc
@@ -444,7 +452,7 @@ func judgeC11b(sc Scenario) (key, msg string, nontrivial bool) {
 	// a half cut leaves one hub with a connection it can only recognise as dead when its pong
 	// wait (60 s) runs out: the two hubs legitimately disagree until then
 	for _, o := range r.Ops {
-		if o.Op.K == "halfcut" && !o.Skipped {
+		if (o.Op.K == "halfcut" || o.Op.K == "freezeOld") && !o.Skipped {
 			if wait := o.End + 68*time.Second - time.Since(f.start); wait > 0 {
 				time.Sleep(wait)
 			}
